@@ -287,10 +287,36 @@ impl Default for TreeOpts {
     }
 }
 
+/// String-matching stress: strings over a two-letter alphabet (optionally with a case variant,
+/// `-` and blanks), so that an attribute value contains overlapping partial occurrences of a
+/// selector operand (`aab` in `aaab`, `abac` in `ababac`), repeated words and repeated dash parts.
+pub fn overlap_string(rng: &mut Rng, min: usize, max: usize, separators: bool) -> String {
+    let n = rng.range(min, max);
+    let mut s = String::new();
+    for _ in 0..n {
+        let c = match rng.below(if separators { 12 } else { 9 }) {
+            0..=4 => 'a',
+            5..=7 => 'b',
+            8 => 'A',
+            9 => '-',
+            10 => ' ',
+            _ => 'c',
+        };
+        s.push(c);
+    }
+    s
+}
+
 pub fn tree_attr(rng: &mut Rng) -> String {
     let an = rng.pick(TREE_ATTRS);
     let n = case_variant(rng, an);
-    let v = rng.pick(TREE_VALUES);
+    let stress;
+    let v: &str = if rng.chance(1, 6) {
+        stress = overlap_string(rng, 2, 9, true);
+        &stress
+    } else {
+        rng.pick(TREE_VALUES)
+    };
     match rng.below(6) {
         0 => n,
         1 if !v.is_empty() && !v.contains([' ', '\t', '\n']) => format!("{n}={v}"),
